@@ -39,6 +39,9 @@ CONSTANTS
   Resume,        \* TRUE: the download may start INCOMPLETE with a partial local file and a stale counter
   ZeroFix,       \* TRUE: a download with nothing remaining does not wait for data (repaired)
   OffsetErrFix,  \* TRUE: a failed offset write puts the download back to QUEUED (repaired)
+  Twin,          \* TRUE: a second download of an equally named file (other uploader) runs next to ours
+  PathLockFix,   \* TRUE: the download-path lock is held until the chosen file exists (the code);
+                 \*       FALSE: it is released right after the name was chosen
   LateNotice     \* TRUE: the downloader's re-queue may overtake the uploader's own end of the attempt
                  \*       (code: a rate-limited uploader waits for tokens before it sees end of file);
                  \*       FALSE: timing assumption UNoticedEnd
@@ -94,7 +97,7 @@ VARIABLES
   sizeD,     \* size D was told (Transfer.filesize), -1 before the first request
   stD, rsnD, \* D's transfer state; a fail reason is set
   remQ,      \* D's remotely_queued mark
-  pcD,       \* idle | waitfc | offerr | starting | recv | timedout | verdict | closed | toclose | stuck
+  pcD,       \* idle | waitfc | offerr | starting | picked | prepared | recv | timedout | verdict | closed | toclose | stuck
   expTk,     \* ticket D waits for on a file connection
   recvD,     \* bytes received in this attempt
   needD,     \* bytes D expects in this attempt (filesize - offset)
@@ -107,10 +110,15 @@ VARIABLES
   fc,        \* file connection [st, tk, off, fl]
   stall,     \* scripted U has stopped sending (keeps the connection open)
   faults,    \* faults / scripted deviations used so far
-  heldUF     \* PeerUploadFailed messages held back in the network (delivered later, out of order)
+  heldUF,    \* PeerUploadFailed messages held back in the network (delivered later, out of order)
+  pathD,     \* name of our local file in the download directory: "none" | "n0" | "n1"
+  pathT,     \* name chosen by the twin download
+  made,      \* names that exist in the download directory
+  plock,     \* holder of the download-path lock: "none" | "D" | "T"
+  pcT        \* twin download: off | start | picked | writing | done
 
 vars == <<mode, size, local, cnt, sizeD, stD, rsnD, remQ, pcD, expTk, recvD, needD, stU, rsnU, pcU, tkt, offU,
-          sentU, chDU, chUD, fc, stall, faults, heldUF>>
+          sentU, chDU, chUD, fc, stall, faults, heldUF, pathD, pathT, made, plock, pcT>>
 
 NoFc == [st |-> "none", tk |-> -1, off |-> -1, fl |-> <<>>]
 
@@ -134,9 +142,13 @@ Init ==
         /\ cnt = c
         /\ stD = IF k = 0 /\ c = 0 THEN "QUEUED" ELSE "INCOMPLETE"
         /\ sizeD = IF k = 0 /\ c = 0 THEN -1 ELSE size
+        \* a download that is resumed has its file; a new one has no local path yet
+        /\ pathD = IF k = 0 /\ c = 0 THEN "none" ELSE "n0"
+        /\ made = IF k = 0 /\ c = 0 THEN {} ELSE {"n0"}
   /\ rsnD = FALSE /\ remQ = FALSE /\ pcD = "idle" /\ expTk = -1 /\ recvD = 0 /\ needD = 0
   /\ stU = "NONE" /\ rsnU = FALSE /\ pcU = "idle" /\ tkt = 0 /\ offU = 0 /\ sentU = 0
   /\ chDU = <<>> /\ chUD = <<>> /\ fc = NoFc /\ stall = FALSE /\ faults = 0 /\ heldUF = 0
+  /\ pathT = "none" /\ plock = "none" /\ pcT = IF Twin THEN "start" ELSE "off"
 
 ----------------------------------------------------------------------------
 \* Downloader
@@ -156,7 +168,7 @@ DQueueRemotelyCore ==
   /\ chDU' = Append(chDU, [t |-> "queue"])
   /\ remQ' = TRUE
   /\ UNCHANGED <<mode, size, local, cnt, sizeD, stD, rsnD, pcD, expTk, recvD, needD, stU, rsnU, pcU, tkt, offU,
-                 sentU, chUD, fc, stall, faults, heldUF>>
+                 sentU, chUD, fc, stall, faults, heldUF, pathD, pathT, made, plock, pcT>>
 
 DQueueRemotely == (UNoticedEnd \/ LateNotice) /\ DQueueRemotelyCore
 
@@ -177,7 +189,7 @@ DRecvRequest ==
             THEN /\ chDU' = Append(chDU, [t |-> "reply", k |-> m.k, ok |-> FALSE])
                  /\ UNCHANGED <<stD, sizeD, expTk, pcD>>
             ELSE UNCHANGED <<stD, sizeD, expTk, pcD, chDU>>
-  /\ UNCHANGED <<mode, size, local, cnt, rsnD, remQ, recvD, needD, stU, rsnU, pcU, tkt, offU, sentU, fc, stall, faults, heldUF>>
+  /\ UNCHANGED <<mode, size, local, cnt, rsnD, remQ, recvD, needD, stU, rsnU, pcU, tkt, offU, sentU, fc, stall, faults, heldUF, pathD, pathT, made, plock, pcT>>
 
 \* 1417-1418: FAILED -> queue(remotely=True); the request is then handled as for QUEUED.
 DRequeueOnRequest ==
@@ -185,7 +197,7 @@ DRequeueOnRequest ==
   /\ stD = "FAILED" /\ pcD = "idle"
   /\ stD' = "QUEUED" /\ rsnD' = FALSE /\ remQ' = TRUE
   /\ UNCHANGED <<mode, size, local, cnt, sizeD, pcD, expTk, recvD, needD, stU, rsnU, pcU, tkt, offU, sentU, chDU,
-                 chUD, fc, stall, faults, heldUF>>
+                 chUD, fc, stall, faults, heldUF, pathD, pathT, made, plock, pcT>>
 
 \* 822-824: no file connection within 60 s -> QUEUED (queue() clears the remote mark).
 \* Fires only when the connection can no longer come.
@@ -198,7 +210,7 @@ DFileConnTimeout ==
   /\ pcD = "waitfc" /\ ~FileConnStillPossible
   /\ stD' = "QUEUED" /\ remQ' = FALSE /\ pcD' = "idle"
   /\ UNCHANGED <<mode, size, local, cnt, sizeD, rsnD, expTk, recvD, needD, stU, rsnU, pcU, tkt, offU, sentU, chDU,
-                 chUD, fc, stall, faults, heldUF>>
+                 chUD, fc, stall, faults, heldUF, pathD, pathT, made, plock, pcT>>
 
 \* 1239-1272 + 826-846: the ticket arrives on a file connection; D computes the offset = size of
 \* the local file, sets its counter and writes the offset.  A scripted D may send any offset.
@@ -212,7 +224,7 @@ DSendOffset(o) ==
        THEN fc' = [fc EXCEPT !.tk = -1] /\ pcD' = "offerr"
        ELSE fc' = [fc EXCEPT !.tk = -1, !.off = IF fc.st = "open" THEN o ELSE -1] /\ pcD' = "starting"
   /\ UNCHANGED <<mode, size, local, sizeD, stD, rsnD, remQ, expTk, recvD, needD, stU, rsnU, pcU, tkt, offU, sentU,
-                 chDU, chUD, stall, faults, heldUF>>
+                 chDU, chUD, stall, faults, heldUF, pathD, pathT, made, plock, pcT>>
 
 \* 834-840: ConnectionWriteError while writing the offset
 DOffsetErr ==
@@ -220,17 +232,66 @@ DOffsetErr ==
   /\ IF OffsetErrFix THEN stD' = "QUEUED" /\ remQ' = FALSE /\ pcD' = "idle"
                      ELSE pcD' = "stuck" /\ UNCHANGED <<stD, remQ>>
   /\ UNCHANGED <<mode, size, local, cnt, sizeD, rsnD, expTk, recvD, needD, stU, rsnU, pcU, tkt, offU, sentU, chDU,
-                 chUD, fc, stall, faults, heldUF>>
+                 chUD, fc, stall, faults, heldUF, pathD, pathT, made, plock, pcT>>
+
+\* _prepare_download_path: under the download-path lock the name is chosen by looking at the files
+\* that exist right now (naming strategies: the plain name, else the next numbered one) ...
+FirstFree == IF "n0" \notin made THEN "n0" ELSE "n1"
+
+DPickPath ==
+  /\ pcD = "starting" /\ plock = "none"
+  /\ pathD' = IF pathD = "none" THEN FirstFree ELSE pathD
+  /\ plock' = IF PathLockFix THEN "D" ELSE "none"
+  /\ pcD' = "picked"
+  /\ UNCHANGED <<mode, size, local, cnt, sizeD, stD, rsnD, remQ, expTk, recvD, needD, stU, rsnU, pcU, tkt, offU,
+                 sentU, chDU, chUD, fc, stall, faults, heldUF, pathT, made, pcT>>
+
+\* ... and the directory and the (empty) file are created before the lock is given up
+DCreateFile ==
+  /\ pcD = "picked"
+  /\ made' = made \cup {pathD}
+  /\ plock' = IF plock = "D" THEN "none" ELSE plock
+  /\ pcD' = "prepared"
+  /\ UNCHANGED <<mode, size, local, cnt, sizeD, stD, rsnD, remQ, expTk, recvD, needD, stU, rsnU, pcU, tkt, offU,
+                 sentU, chDU, chUD, fc, stall, faults, heldUF, pathD, pathT, pcT>>
+
+\* The twin: another download whose remote path ends in the same file name, from another uploader,
+\* whose file connection arrives at about the same time.  It chooses its name the same way and writes
+\* its own bytes to it; if that is our file, they end up in our file.
+TPickPath ==
+  /\ pcT = "start" /\ plock = "none"
+  /\ pathT' = FirstFree
+  /\ plock' = IF PathLockFix THEN "T" ELSE "none"
+  /\ pcT' = "picked"
+  /\ UNCHANGED <<mode, size, local, cnt, sizeD, stD, rsnD, remQ, pcD, expTk, recvD, needD, stU, rsnU, pcU, tkt, offU,
+                 sentU, chDU, chUD, fc, stall, faults, heldUF, pathD, made>>
+
+TCreateFile ==
+  /\ pcT = "picked"
+  /\ made' = made \cup {pathT}
+  /\ plock' = IF plock = "T" THEN "none" ELSE plock
+  /\ pcT' = "writing"
+  /\ UNCHANGED <<mode, size, local, cnt, sizeD, stD, rsnD, remQ, pcD, expTk, recvD, needD, stU, rsnU, pcU, tkt, offU,
+                 sentU, chDU, chUD, fc, stall, faults, heldUF, pathD, pathT>>
+
+TWrite ==
+  /\ pcT = "writing"
+  /\ local' = IF pathT = pathD THEN Cat(local, Junk(1)) ELSE local
+  /\ pcT' = "done"
+  /\ UNCHANGED <<mode, size, cnt, sizeD, stD, rsnD, remQ, pcD, expTk, recvD, needD, stU, rsnU, pcU, tkt, offU,
+                 sentU, chDU, chUD, fc, stall, faults, heldUF, pathD, pathT, made, plock>>
+
+TStep == TPickPath \/ TCreateFile \/ TWrite
 
 \* 1095-1112 + state.py start_transferring (reset_queue_vars): DOWNLOADING.
 \* The number of bytes to receive is filesize - offset; with nothing remaining the repaired
 \* design goes straight to the verdict, the code as found waits for data.
 DStartDownload ==
-  /\ pcD = "starting"
+  /\ pcD = "prepared"
   /\ stD' = "DOWNLOADING" /\ remQ' = FALSE /\ recvD' = 0 /\ needD' = sizeD - cnt
   /\ pcD' = IF ZeroFix /\ sizeD - cnt <= 0 THEN "verdict" ELSE "recv"
   /\ UNCHANGED <<mode, size, local, cnt, sizeD, rsnD, expTk, stU, rsnU, pcU, tkt, offU, sentU, chDU, chUD, fc,
-                 stall, faults, heldUF>>
+                 stall, faults, heldUF, pathD, pathT, made, plock, pcT>>
 
 \* connection.py 699-728 + 1114-1120: read up to Chunk bytes, append them to the file, count them.
 DRecv(n) ==
@@ -240,21 +301,21 @@ DRecv(n) ==
   /\ cnt' = cnt + n /\ recvD' = recvD + n
   /\ pcD' = IF recvD + n >= needD THEN "verdict" ELSE "recv"
   /\ UNCHANGED <<mode, size, sizeD, stD, rsnD, remQ, expTk, needD, stU, rsnU, pcU, tkt, offU, sentU, chDU, chUD,
-                 stall, faults, heldUF>>
+                 stall, faults, heldUF, pathD, pathT, made, plock, pcT>>
 
 \* receive_data returned None: the peer (or the network) closed the connection.
 DSeeEof ==
   /\ pcD = "recv" /\ fc.fl = <<>> /\ fc.st \in {"closedU", "eof"}
   /\ pcD' = "verdict"
   /\ UNCHANGED <<mode, size, local, cnt, sizeD, stD, rsnD, remQ, expTk, recvD, needD, stU, rsnU, pcU, tkt, offU,
-                 sentU, chDU, chUD, fc, stall, faults, heldUF>>
+                 sentU, chDU, chUD, fc, stall, faults, heldUF, pathD, pathT, made, plock, pcT>>
 
 \* 1128-1130: read error -> INCOMPLETE
 DSeeReset ==
   /\ pcD = "recv" /\ fc.fl = <<>> /\ fc.st = "reset"
   /\ stD' = "INCOMPLETE" /\ pcD' = "idle"
   /\ UNCHANGED <<mode, size, local, cnt, sizeD, rsnD, remQ, expTk, recvD, needD, stU, rsnU, pcU, tkt, offU, sentU,
-                 chDU, chUD, fc, stall, faults, heldUF>>
+                 chDU, chUD, fc, stall, faults, heldUF, pathD, pathT, made, plock, pcT>>
 
 \* no data for 180 s (the sender will not send any more): read timeout -> disconnect, INCOMPLETE
 SenderSilent == fc.st = "open" /\ fc.fl = <<>> /\ (pcU = "waiteof" \/ stall)
@@ -264,14 +325,14 @@ DDataTimeout ==
   /\ pcD' = "timedout"
   /\ fc' = [fc EXCEPT !.st = "closedD"]
   /\ UNCHANGED <<mode, size, local, cnt, sizeD, stD, rsnD, remQ, expTk, recvD, needD, stU, rsnU, pcU, tkt, offU, sentU,
-                 chDU, chUD, stall, faults, heldUF>>
+                 chDU, chUD, stall, faults, heldUF, pathD, pathT, made, plock, pcT>>
 
 \* ... and after the disconnect the download becomes INCOMPLETE (1128-1130)
 DTimedOut ==
   /\ pcD = "timedout"
   /\ stD' = "INCOMPLETE" /\ pcD' = "idle"
   /\ UNCHANGED <<mode, size, local, cnt, sizeD, rsnD, remQ, expTk, recvD, needD, stU, rsnU, pcU, tkt, offU, sentU,
-                 chDU, chUD, fc, stall, faults, heldUF>>
+                 chDU, chUD, fc, stall, faults, heldUF, pathD, pathT, made, plock, pcT>>
 
 \* 1139-1144: D closes the file connection (this is how it confirms reception) and announces the
 \* verdict: COMPLETE iff counter = announced size (model.py is_transfered), else FAILED "Cancelled".
@@ -281,7 +342,7 @@ DClose ==
   /\ fc' = IF ~PeerGone THEN [fc EXCEPT !.st = "closedD", !.fl = <<>>] ELSE fc
   /\ pcD' = IF pcD = "verdict" THEN "closed" ELSE "idle"
   /\ UNCHANGED <<mode, size, local, cnt, sizeD, stD, rsnD, remQ, expTk, recvD, needD, stU, rsnU, pcU, tkt, offU,
-                 sentU, chDU, chUD, stall, faults, heldUF>>
+                 sentU, chDU, chUD, stall, faults, heldUF, pathD, pathT, made, plock, pcT>>
 
 DVerdict ==
   /\ pcD \in {"closed", "verdict"}
@@ -289,7 +350,7 @@ DVerdict ==
                     ELSE stD' = "FAILED" /\ rsnD' = TRUE
   /\ pcD' = IF pcD = "closed" THEN "idle" ELSE "toclose"
   /\ UNCHANGED <<mode, size, local, cnt, sizeD, remQ, expTk, recvD, needD, stU, rsnU, pcU, tkt, offU, sentU, chDU,
-                 chUD, fc, stall, faults, heldUF>>
+                 chUD, fc, stall, faults, heldUF, pathD, pathT, made, plock, pcT>>
 
 \* 1482-1497
 DRecvUpFailed ==
@@ -297,7 +358,7 @@ DRecvUpFailed ==
   /\ chUD' = Tail(chUD)
   /\ remQ' = FALSE
   /\ UNCHANGED <<mode, size, local, cnt, sizeD, stD, rsnD, pcD, expTk, recvD, needD, stU, rsnU, pcU, tkt, offU,
-                 sentU, chDU, fc, stall, faults, heldUF>>
+                 sentU, chDU, fc, stall, faults, heldUF, pathD, pathT, made, plock, pcT>>
 
 \* environment: the user re-queues a download that FAILED with a reason (TransferManager.queue),
 \* once the uploader has noticed the end of its attempt
@@ -306,7 +367,7 @@ UserRetry ==
   /\ stU \notin {"INITIALIZING", "UPLOADING"}
   /\ stD' = "QUEUED" /\ rsnD' = FALSE /\ remQ' = FALSE
   /\ UNCHANGED <<mode, size, local, cnt, sizeD, pcD, expTk, recvD, needD, stU, rsnU, pcU, tkt, offU, sentU, chDU,
-                 chUD, fc, stall, faults, heldUF>>
+                 chUD, fc, stall, faults, heldUF, pathD, pathT, made, plock, pcT>>
 
 ----------------------------------------------------------------------------
 \* Uploader
@@ -319,7 +380,7 @@ URecvQueue ==
        THEN stU' = "QUEUED" /\ rsnU' = FALSE
        ELSE UNCHANGED <<stU, rsnU>>
   /\ UNCHANGED <<mode, size, local, cnt, sizeD, stD, rsnD, remQ, pcD, expTk, recvD, needD, pcU, tkt, offU, sentU,
-                 chUD, fc, stall, faults, heldUF>>
+                 chUD, fc, stall, faults, heldUF, pathD, pathT, made, plock, pcT>>
 
 \* 853-905: INITIALIZING, new ticket, PeerTransferRequest(ticket, size)
 UInitialize ==
@@ -328,7 +389,7 @@ UInitialize ==
   /\ tkt' = (tkt + 1) % TkMod
   /\ chUD' = Append(chUD, [t |-> "request", k |-> (tkt + 1) % TkMod, sz |-> size])
   /\ UNCHANGED <<mode, size, local, cnt, sizeD, stD, rsnD, remQ, pcD, expTk, recvD, needD, rsnU, offU, sentU, chDU,
-                 fc, stall, faults, heldUF>>
+                 fc, stall, faults, heldUF, pathD, pathT, made, plock, pcT>>
 
 \* 907-924: the reply for the current ticket; a refusal fails the upload with the given reason.
 \* Replies nobody waits for are dropped.
@@ -340,7 +401,7 @@ URecvReply ==
                              ELSE pcU' = "idle" /\ stU' = "FAILED" /\ rsnU' = TRUE
        ELSE UNCHANGED <<pcU, stU, rsnU>>
   /\ UNCHANGED <<mode, size, local, cnt, sizeD, stD, rsnD, remQ, pcD, expTk, recvD, needD, tkt, offU, sentU, chUD,
-                 fc, stall, faults, heldUF>>
+                 fc, stall, faults, heldUF, pathD, pathT, made, plock, pcT>>
 
 \* 917-920: no reply within 30 s -> QUEUED.  Fires only when the reply can no longer come.
 ReplyStillPossible ==
@@ -351,7 +412,7 @@ UReplyTimeout ==
   /\ pcU = "waitreply" /\ ~ReplyStillPossible
   /\ stU' = "QUEUED" /\ pcU' = "idle"
   /\ UNCHANGED <<mode, size, local, cnt, sizeD, stD, rsnD, remQ, pcD, expTk, recvD, needD, rsnU, tkt, offU, sentU,
-                 chDU, chUD, fc, stall, faults, heldUF>>
+                 chDU, chUD, fc, stall, faults, heldUF, pathD, pathT, made, plock, pcT>>
 
 \* 926-944: open the file connection and write the ticket
 UOpenFileConn ==
@@ -359,7 +420,7 @@ UOpenFileConn ==
   /\ fc' = [st |-> "open", tk |-> tkt, off |-> -1, fl |-> <<>>]
   /\ pcU' = "waitoffset"
   /\ UNCHANGED <<mode, size, local, cnt, sizeD, stD, rsnD, remQ, pcD, expTk, recvD, needD, stU, rsnU, tkt, offU,
-                 sentU, chDU, chUD, stall, faults, heldUF>>
+                 sentU, chDU, chUD, stall, faults, heldUF, pathD, pathT, made, plock, pcT>>
 
 \* 946-957 + 1007-1008: the offset arrives -> counter := offset, UPLOADING
 URecvOffset ==
@@ -368,14 +429,14 @@ URecvOffset ==
   /\ fc' = [fc EXCEPT !.off = -1]
   /\ stU' = "UPLOADING" /\ pcU' = "send"
   /\ UNCHANGED <<mode, size, local, cnt, sizeD, stD, rsnD, remQ, pcD, expTk, recvD, needD, rsnU, tkt, chDU, chUD,
-                 stall, faults, heldUF>>
+                 stall, faults, heldUF, pathD, pathT, made, plock, pcT>>
 
 \* 949-952: the connection ended before the offset came -> QUEUED
 UOffsetFail ==
   /\ pcU = "waitoffset" /\ fc.off < 0 /\ fc.st \in {"reset", "eof", "closedD"}
   /\ stU' = "QUEUED" /\ pcU' = "idle"
   /\ UNCHANGED <<mode, size, local, cnt, sizeD, stD, rsnD, remQ, pcD, expTk, recvD, needD, rsnU, tkt, offU, sentU,
-                 chDU, chUD, fc, stall, faults, heldUF>>
+                 chDU, chUD, fc, stall, faults, heldUF, pathD, pathT, made, plock, pcT>>
 
 Remaining == size - offU - sentU
 
@@ -395,14 +456,14 @@ USend(n) ==
                        ELSE fc
             /\ UNCHANGED <<stU, rsnU, pcU, chUD>>
   /\ UNCHANGED <<mode, size, local, cnt, sizeD, stD, rsnD, remQ, pcD, expTk, recvD, needD, tkt, offU, chDU, stall,
-                 faults, heldUF>>
+                 faults, heldUF, pathD, pathT, made, plock, pcT>>
 
 \* end of file reached (at once when the offset is at or beyond the end)
 USendDone ==
   /\ pcU = "send" /\ ~stall /\ Remaining <= 0
   /\ pcU' = "waiteof"
   /\ UNCHANGED <<mode, size, local, cnt, sizeD, stD, rsnD, remQ, pcD, expTk, recvD, needD, stU, rsnU, tkt, offU,
-                 sentU, chDU, chUD, fc, stall, faults, heldUF>>
+                 sentU, chDU, chUD, fc, stall, faults, heldUF, pathD, pathT, made, plock, pcT>>
 
 \* 1063-1068: wait until the connection ends, then COMPLETE iff offset + sent = size, else FAILED
 UVerdict ==
@@ -411,7 +472,7 @@ UVerdict ==
                             ELSE stU' = "FAILED" /\ rsnU' = FALSE
   /\ pcU' = "idle"
   /\ UNCHANGED <<mode, size, local, cnt, sizeD, stD, rsnD, remQ, pcD, expTk, recvD, needD, tkt, offU, sentU, chDU,
-                 chUD, fc, stall, faults, heldUF>>
+                 chUD, fc, stall, faults, heldUF, pathD, pathT, made, plock, pcT>>
 
 ----------------------------------------------------------------------------
 \* Faults (budgeted)
@@ -425,20 +486,20 @@ Cut(m, j, keepTk, keepOff) ==
             fl |-> Take(fc.fl, j)]
   /\ faults' = faults + 1
   /\ UNCHANGED <<mode, size, local, cnt, sizeD, stD, rsnD, remQ, pcD, expTk, recvD, needD, stU, rsnU, pcU, tkt, offU,
-                 sentU, chDU, chUD, stall, heldUF>>
+                 sentU, chDU, chUD, stall, heldUF, pathD, pathT, made, plock, pcT>>
 
 \* a PeerTransferRequest / PeerTransferReply is lost with its peer connection
 LoseRequest ==
   /\ faults < MaxFaults /\ chUD # <<>> /\ Head(chUD).t = "request"
   /\ chUD' = Tail(chUD) /\ faults' = faults + 1
   /\ UNCHANGED <<mode, size, local, cnt, sizeD, stD, rsnD, remQ, pcD, expTk, recvD, needD, stU, rsnU, pcU, tkt, offU,
-                 sentU, chDU, fc, stall, heldUF>>
+                 sentU, chDU, fc, stall, heldUF, pathD, pathT, made, plock, pcT>>
 
 LoseReply ==
   /\ faults < MaxFaults /\ chDU # <<>> /\ Head(chDU).t = "reply"
   /\ chDU' = Tail(chDU) /\ faults' = faults + 1
   /\ UNCHANGED <<mode, size, local, cnt, sizeD, stD, rsnD, remQ, pcD, expTk, recvD, needD, stU, rsnU, pcU, tkt, offU,
-                 sentU, chUD, fc, stall, heldUF>>
+                 sentU, chUD, fc, stall, heldUF, pathD, pathT, made, plock, pcT>>
 
 \* the uploader's end of the file connection breaks: its next write fails, what is in flight still
 \* reaches the downloader, followed by EOF
@@ -447,7 +508,7 @@ BreakUSide ==
   /\ fc' = [fc EXCEPT !.st = "ubroken"]
   /\ faults' = faults + 1
   /\ UNCHANGED <<mode, size, local, cnt, sizeD, stD, rsnD, remQ, pcD, expTk, recvD, needD, stU, rsnU, pcU, tkt, offU,
-                 sentU, chDU, chUD, stall, heldUF>>
+                 sentU, chDU, chUD, stall, heldUF, pathD, pathT, made, plock, pcT>>
 
 \* a PeerUploadFailed is held back in the network (it travels on another connection than the messages
 \* that follow it): a delivery order, not a fault - every such message can be overtaken ...
@@ -457,7 +518,7 @@ HoldUpFailed ==
         /\ chUD' = SubSeq(chUD, 1, i - 1) \o SubSeq(chUD, i + 1, Len(chUD))
   /\ heldUF' = heldUF + 1
   /\ UNCHANGED <<mode, size, local, cnt, sizeD, stD, rsnD, remQ, pcD, expTk, recvD, needD, stU, rsnU, pcU, tkt, offU,
-                 sentU, chDU, fc, stall, faults>>
+                 sentU, chDU, fc, stall, faults, pathD, pathT, made, plock, pcT>>
 
 \* ... and delivered later, whatever the download is doing then (1482-1497: only the mark is cleared)
 ReleaseUpFailed ==
@@ -465,7 +526,7 @@ ReleaseUpFailed ==
   /\ heldUF' = heldUF - 1
   /\ remQ' = FALSE
   /\ UNCHANGED <<mode, size, local, cnt, sizeD, stD, rsnD, pcD, expTk, recvD, needD, stU, rsnU, pcU, tkt, offU,
-                 sentU, chDU, chUD, fc, stall, faults>>
+                 sentU, chDU, chUD, fc, stall, faults, pathD, pathT, made, plock, pcT>>
 
 \* scripted uploader (another implementation, possibly dishonest)
 \* announces failure of a queued upload before requesting (PeerUploadFailed while D is queued remotely)
@@ -475,7 +536,7 @@ ScrUFailEarly ==
   /\ chUD' = Append(chUD, [t |-> "upfailed"])
   /\ faults' = faults + 1
   /\ UNCHANGED <<mode, size, local, cnt, sizeD, stD, rsnD, remQ, pcD, expTk, recvD, needD, pcU, tkt, offU, sentU,
-                 chDU, fc, stall, heldUF>>
+                 chDU, fc, stall, heldUF, pathD, pathT, made, plock, pcT>>
 
 \* gives up after the reply (crash, other implementation): no file connection, no message; the
 \* downloader has to recover by its own 60 s timer
@@ -484,7 +545,7 @@ ScrUAbandon ==
   /\ stU' = "FAILED" /\ rsnU' = FALSE /\ pcU' = "idle"
   /\ faults' = faults + 1
   /\ UNCHANGED <<mode, size, local, cnt, sizeD, stD, rsnD, remQ, pcD, expTk, recvD, needD, tkt, offU, sentU, chDU,
-                 chUD, fc, stall, heldUF>>
+                 chUD, fc, stall, heldUF, pathD, pathT, made, plock, pcT>>
 
 \* sends n bytes beyond the announced size (lost if the downloader has already left)
 ScrUSendJunk(n) ==
@@ -494,7 +555,7 @@ ScrUSendJunk(n) ==
   /\ sentU' = sentU + n
   /\ faults' = faults + 1
   /\ UNCHANGED <<mode, size, local, cnt, sizeD, stD, rsnD, remQ, pcD, expTk, recvD, needD, stU, rsnU, pcU, tkt, offU,
-                 chDU, chUD, stall, heldUF>>
+                 chDU, chUD, stall, heldUF, pathD, pathT, made, plock, pcT>>
 
 \* closes the connection before everything was sent
 ScrUCloseEarly ==
@@ -503,20 +564,20 @@ ScrUCloseEarly ==
   /\ stU' = "FAILED" /\ rsnU' = FALSE /\ pcU' = "idle"
   /\ faults' = faults + 1
   /\ UNCHANGED <<mode, size, local, cnt, sizeD, stD, rsnD, remQ, pcD, expTk, recvD, needD, tkt, offU, sentU, chDU,
-                 chUD, stall, heldUF>>
+                 chUD, stall, heldUF, pathD, pathT, made, plock, pcT>>
 
 \* stops sending and keeps the connection open until D gives up
 ScrUStall ==
   /\ mode = "scrU" /\ faults < MaxFaults /\ pcU = "send" /\ Remaining > 0 /\ fc.st = "open" /\ ~stall
   /\ stall' = TRUE /\ faults' = faults + 1
   /\ UNCHANGED <<mode, size, local, cnt, sizeD, stD, rsnD, remQ, pcD, expTk, recvD, needD, stU, rsnU, pcU, tkt, offU,
-                 sentU, chDU, chUD, fc, heldUF>>
+                 sentU, chDU, chUD, fc, heldUF, pathD, pathT, made, plock, pcT>>
 
 ScrUStallEnd ==
   /\ stall /\ fc.st # "open"
   /\ stall' = FALSE /\ stU' = "FAILED" /\ rsnU' = FALSE /\ pcU' = "idle"
   /\ UNCHANGED <<mode, size, local, cnt, sizeD, stD, rsnD, remQ, pcD, expTk, recvD, needD, tkt, offU, sentU, chDU,
-                 chUD, fc, faults, heldUF>>
+                 chUD, fc, faults, heldUF, pathD, pathT, made, plock, pcT>>
 
 \* scripted downloader closes before it has everything
 ScrDCloseEarly ==
@@ -525,14 +586,14 @@ ScrDCloseEarly ==
   /\ stD' = "INCOMPLETE" /\ pcD' = "idle"
   /\ faults' = faults + 1
   /\ UNCHANGED <<mode, size, local, cnt, sizeD, rsnD, remQ, expTk, recvD, needD, stU, rsnU, pcU, tkt, offU, sentU,
-                 chDU, chUD, stall, heldUF>>
+                 chDU, chUD, stall, heldUF, pathD, pathT, made, plock, pcT>>
 
 Offsets == IF RealD THEN {LocalLen} ELSE 0..(size + 1)
 
 DStep ==
   \/ DQueueRemotely \/ DRecvRequest \/ DRequeueOnRequest \/ DFileConnTimeout
   \/ (\E o \in Offsets : DSendOffset(o)) \/ DOffsetErr
-  \/ DStartDownload \/ (\E n \in 1..Chunk : DRecv(n)) \/ DSeeEof \/ DSeeReset \/ DDataTimeout \/ DTimedOut
+  \/ DPickPath \/ DCreateFile \/ DStartDownload \/ (\E n \in 1..Chunk : DRecv(n)) \/ DSeeEof \/ DSeeReset \/ DDataTimeout \/ DTimedOut
   \/ DClose \/ DVerdict \/ DRecvUpFailed
 
 UStep ==
@@ -546,7 +607,7 @@ Fault ==
   \/ LoseRequest \/ LoseReply \/ BreakUSide \/ HoldUpFailed
   \/ ScrUFailEarly \/ ScrUAbandon \/ (\E n \in 1..Chunk : ScrUSendJunk(n)) \/ ScrUCloseEarly \/ ScrUStall \/ ScrDCloseEarly
 
-Next == DStep \/ UStep \/ UserRetry \/ ReleaseUpFailed \/ Fault
+Next == DStep \/ UStep \/ TStep \/ UserRetry \/ ReleaseUpFailed \/ Fault
 
 Spec == Init /\ [][Next]_vars
 
@@ -561,6 +622,7 @@ FairSpec ==
   /\ WF_vars(UOpenFileConn) /\ WF_vars(URecvOffset) /\ WF_vars(UOffsetFail)
   /\ WF_vars(\E n \in 1..Chunk : USend(n)) /\ WF_vars(USendDone) /\ WF_vars(UVerdict)
   /\ WF_vars(ReleaseUpFailed)
+  /\ WF_vars(DPickPath) /\ WF_vars(DCreateFile) /\ WF_vars(TPickPath) /\ WF_vars(TCreateFile) /\ WF_vars(TWrite)
 
 ----------------------------------------------------------------------------
 \* Properties
@@ -569,7 +631,7 @@ States == {"QUEUED", "INITIALIZING", "INCOMPLETE", "DOWNLOADING", "UPLOADING", "
 
 TypeOK ==
   /\ stD \in States /\ stU \in States \cup {"NONE"}
-  /\ pcD \in {"idle", "waitfc", "offerr", "starting", "recv", "timedout", "verdict", "closed", "toclose", "stuck"}
+  /\ pcD \in {"idle", "waitfc", "offerr", "starting", "picked", "prepared", "recv", "timedout", "verdict", "closed", "toclose", "stuck"}
   /\ pcU \in {"idle", "waitreply", "connect", "waitoffset", "send", "waiteof"}
   /\ fc.st \in {"none", "open", "ubroken", "closedD", "closedU", "eof", "reset"}
   /\ faults \in 0..MaxFaults
@@ -597,7 +659,11 @@ BreakOutcome ==
         (stD' \in {"COMPLETE", "INCOMPLETE"} \/ (stD' = "FAILED" /\ rsnD'))]_vars
 
 \* D's counter is the local file size whenever it decides (lemma used by the verdict)
-CounterIsFileSize == (RealD /\ pcD \in {"starting", "recv", "verdict", "closed"}) => cnt = LocalLen
+CounterIsFileSize ==
+  (RealD /\ ~Twin /\ pcD \in {"starting", "picked", "prepared", "recv", "verdict", "closed"}) => cnt = LocalLen
+
+\* Two downloads never share a local file.
+DistinctPaths == (pathD # "none" /\ pathT # "none") => pathD # pathT
 
 Settled ==
   /\ stD = "COMPLETE"
